@@ -6,5 +6,5 @@ export GOFLAGS=-mod=mod GOPROXY=off GOSUMDB=off GOTOOLCHAIN=local
 (cd lean && lake build)
 mkdir -p harness/bin evidence replays
 cp /repo/go.sum harness/go.sum
-(cd harness && go build -tags verif -o bin/ottoh ./cmd/ottoh)
+(cd harness && for d in cmd/c*; do id=$(basename $d | tr a-z A-Z); go build -tags verif -o bin/ottoh-$id ./$d; done)
 echo setup ok
